@@ -1,1 +1,79 @@
-From Verif Require Import Shapes.Eval.
+(* C01 - core constraint components flag exactly the value nodes the SHACL text names. *)
+From Coq Require Import List NArith ZArith QArith Bool.
+From Verif Require Import Base.SetList Base.Terms Base.Vocab Paths.Path Shapes.AST Shapes.Leaf Shapes.Eval
+  Shapes.EvalProofs Shapes.TargetProofs Shapes.LeafSpec.
+Import ListNotations.
+Local Close Scope Q_scope.
+
+(* Every leaf component of the model reports exactly the results its W3C textual definition
+   prescribes (leaf_spec), for every data graph, focus node and set of value nodes. *)
+Theorem C01_component : forall W g l f vs b, In b (leaf_bad W g l f vs) <-> leaf_spec W g l f vs b.
+Proof. exact leaf_bad_spec. Qed.
+Print Assumptions C01_component.
+
+(* Lifted to shapes made of leaf components (without abort_on_first): the results of the shape
+   are exactly those of its components, for each focus node and its value nodes. *)
+Theorem C01_shape : forall trig W o g E fuel top ep s foci cr fvs,
+  e_abort o = false ->
+  (forall c, In c (scomps s) -> exists l, c = CLeaf l) ->
+  shape_value_nodes g s foci = Ok fvs ->
+  vshape trig W (S fuel) o g E top ep s foci = Ok cr ->
+  deact s = false -> foci <> [] ->
+  forall r, In r (snd cr) <->
+    exists l f vs b, In (CLeaf l) (scomps s) /\ In (f, vs) fvs /\ leaf_spec W g l f vs b
+                     /\ r = mk s (leaf_comp l) f b [].
+Proof. exact leaf_shape_results. Qed.
+Print Assumptions C01_shape.
+
+(* The value-range components evaluate SPARQL's "$bound < v" (<=, >, >=) by the operator mapping:
+   numerics by value (exact rationals, +-INF), simple literals/xsd:string by code point, booleans,
+   xsd:dateTime only both with or both without timezone, xsd:date; everything else - different
+   operand classes, ill-typed literals, IRIs, blank nodes - is incomparable and violates. *)
+Theorem C01_range : forall W op b v, range_ok W op b v = true <-> range_spec W op b v.
+Proof. exact range_ok_spec. Qed.
+Print Assumptions C01_range.
+
+(* sh:lessThan / sh:lessThanOrEquals use the same order on literals; wrongly-kinded pairs violate *)
+Theorem C01_order : forall W eq v c, is_lit v = true -> is_lit c = true ->
+  (in_order W eq v c = true <->
+   (if eq then sparql_le (kind_of W v) (kind_of W c) = Some true else sparql_lt (kind_of W v) (kind_of W c) = Some true)).
+Proof. exact in_order_spec. Qed.
+Print Assumptions C01_order.
+Theorem C01_order_wrong_kind : forall W eq v c,
+  is_bnode v = true \/ is_bnode c = true \/ is_lit v <> is_lit c -> in_order W eq v c = false.
+Proof. exact in_order_wrong_kind. Qed.
+Print Assumptions C01_order_wrong_kind.
+
+(* sh:languageIn is SPARQL langMatches (RFC 4647 basic filtering) over the members of the list *)
+Theorem C01_languageIn : forall W ranges v,
+  language_in W ranges v = true <-> exists r, In r ranges /\ lang_matches r (lang_of W v) = true.
+Proof. exact language_in_spec. Qed.
+Print Assumptions C01_languageIn.
+
+(* sh:uniqueLang: one result per non-empty language tag used by at least two value nodes *)
+Theorem C01_uniqueLang : forall vs l, In l (dup_langs [] [] vs) <-> (l <> 0%N /\ 2 <= count_lang l vs).
+Proof. exact unique_lang_spec. Qed.
+Print Assumptions C01_uniqueLang.
+Theorem C01_uniqueLang_once : forall vs seen dups, NoDup dups -> NoDup (dup_langs seen dups vs).
+Proof. exact dup_langs_nodup. Qed.
+Print Assumptions C01_uniqueLang_once.
+
+(* sh:class uses SHACL's instance relation (rdf:type followed by zero or more rdfs:subClassOf), on cyclic graphs too *)
+Theorem C01_class : forall g v c, is_lit v = false -> (has_class g v c = true <-> shacl_instance g v c).
+Proof. exact has_class_spec. Qed.
+Print Assumptions C01_class.
+
+(* the verdict of a component is 'conforms' exactly when it reports nothing *)
+Theorem C01_verdict : forall trig W nested g E s fvs ep c cr,
+  nested_good nested -> evalc trig W nested g E s fvs ep c = Ok cr -> (fst cr = true <-> snd cr = []).
+Proof. exact evalc_good. Qed.
+Print Assumptions C01_verdict.
+
+(* Non-vacuity / the defect repaired in /repo 460dded: an integer against a dateTime bound. *)
+Definition Wx : world :=
+  {| w_kind := [(LIT 1 2 0, KNum (Qmake 5 1)); (LIT 3 4 0, KDateTime true 1577836800000000%Z)];
+     w_dinfo := []; w_len := []; w_regex := []; w_lang := [] |}.
+Example C01_nonvacuous :
+  leaf_bad Wx [] (LMinIncl [LIT 3 4 0]) (IRI 9) [LIT 1 2 0] = [Some (LIT 1 2 0)]
+  /\ leaf_bad Wx [] (LMinIncl [LIT 1 2 0]) (IRI 9) [LIT 1 2 0] = [].
+Proof. vm_compute. split; reflexivity. Qed.
